@@ -29,6 +29,11 @@ def main():
     name = None
     checks = None
     tier = "quick"
+    agent_wt_opt = None
+    if "--wt" in args:
+        i = args.index("--wt")
+        agent_wt_opt = args[i + 1]
+        del args[i:i + 2]
     for flag in ("--name", "--checks", "--tier"):
         if flag in args:
             i = args.index(flag)
@@ -59,7 +64,7 @@ def main():
     result = {"seed": name, "property": prop, "notes": notes, "ran": []}
     try:
         # where does the demo live? take the path from the agent's worktree
-        agent_wt = "/tmp/seed-%s" % prop
+        agent_wt = agent_wt_opt or "/tmp/seed-%s" % prop
         demo_rel = []
         rc, out = sh("git -C %s status --porcelain" % agent_wt)
         for line in out.splitlines():
